@@ -1,4 +1,5 @@
-"""Known finding failed-commit-dedup-persisted (C01): scripted histories that reach it and its classifier.
+"""FORMER known finding failed-commit-dedup-persisted (C01; repaired by /repo 890d206): scripted histories that reached
+it (now must-pass) and the decidable form of clause I5 used as an oracle after every refused commit.
 
 The Coq side is Model/KnownC01.v (c01_failed_commit_dedup: the staged inventory violates clause I5 of the staged
 invariant) with the witness Proofs/KnownC01Facts.v.  The python classifier below decides the same predicate on the
@@ -67,10 +68,12 @@ def refused_commit_before(run, st):
     return seen
 
 
-def classifier(run, st, msg):
-    if st.op["op"] != "commit" or "E050" not in msg:
-        return None
-    pre = (st.pre.get("staged") or {}).get(st.op.get("id"))
-    if i5_fails(pre) and refused_commit_before(run, st):
-        return "failed-commit-dedup-persisted"
-    return None
+def refused_commit_oracle(run, st):
+    """after a commit that reports an error the version stays staged and every staged path still has a file of
+    its own or committed content (clause I5 of the staged invariant, evaluated on the real staged inventory)"""
+    if st.op["op"] != "commit" or not st.rc.startswith("err"):
+        return []
+    post = (st.post.get("staged") or {}).get(st.op.get("id"))
+    if post is not None and i5_fails(post):
+        return ["a refused commit left a staged version in which two logical paths share one staged file (clause I5 fails)"]
+    return []
